@@ -262,6 +262,20 @@ def check(ctx):
     def pos(key):
         return next((i for i, s in enumerate(seq) if key in s), -1)
     pf, pe, pp, pr = pos('facilities.member_variables'), pos('cpp_elements.encapsulee'), pos('provides_ports.rerouting_class_members'), pos('requires_ports.rerouting_class_members')
+    from .shared import shell_frame_anchors
+    fa = shell_frame_anchors(ctx)
+    if fa is not None:
+        # read off the evaluated header template (E4): where the member variables of the facilities, the encapsulee and the
+        # rerouting members of the boundary ports are rendered
+        hd = fa['header']
+
+        def first(pred):
+            return next((i for i, a in enumerate(hd) if pred(a)), -1)
+        pf = first(lambda a: a[0] == 'hole' and a[1].startswith(('cpp.facilities.runtime.', 'cpp.facilities.dispatcher.', 'cpp.facilities.locator.')))
+        pe = first(lambda a: a[0] == 'hole' and a[1] == 'cpp.encapsulee')
+        pp = first(lambda a: a[0] == 'rep' and a[1].startswith('cpp.provides_ports') and any(x.startswith('member_var') for x in a[2]))
+        pr = first(lambda a: a[0] == 'rep' and a[1].startswith('cpp.requires_ports') and any(x.startswith('member_var') for x in a[2]))
+        seq = [a[1] for a in hd if (a[0] == 'hole' and a[1] == 'cpp.encapsulee') or (a[0] == 'rep' and any(x.startswith('member_var') for x in a[2]))]
     ok = 0 <= pf < pe < pp and pe < pr
     run.add('C09.order', 'dznpy.adv_shell', 'Builder._create_headerfile', 'private section order', ok,
             'facilities are declared before the encapsulee, the encapsulee before the boundary ports' if ok else
